@@ -10,7 +10,7 @@ GROUPS = {
     'C18': 'c_indicators',
     'C05': 'c_strategies', 'C06': 'c_strategies', 'C07': 'c_strategies', 'C08': 'c_strategies',
     'C14': 'c_strategies',
-    'C03': 'c_runtime', 'C09': 'c_runtime', 'C19': 'c_runtime',
+    'C03': 'c_runtime', 'C09': 'c_runtime', 'C19': 'c_assets',
     'C10': 'c_assets', 'C11': 'c_assets', 'C12': 'c_assets', 'C13': 'c_assets',
 }
 
